@@ -374,6 +374,15 @@ impl Program {
         self.location = frame.return_location;
     }
 
+    /// Pop the most recent function call off the stack without returning from it.
+    ///
+    /// This is for a function call whose body failed: we stay where the error
+    /// occurred, but the frame pushed by `push_function_call_onto_stack_and_goto_it`
+    /// is removed. The program will panic if the stack is empty.
+    pub fn pop_function_call_off_stack(&mut self) {
+        self.stack.pop().expect("stack must not be empty");
+    }
+
     pub fn find_variable_value_in_stack(&self, variable_name: &Symbol) -> Option<Value> {
         // Yes, it's really weird that we're crawling up the function call stack to look up
         // variables. This is not normal. But it's how Applesoft BASIC seems to work?
